@@ -832,7 +832,33 @@ class Fn:
                 continue  # compiler-inserted overflow / bounds / division checks carry no program logic
             a = atom_of(cond, val, self.switch_ty(s))
             if a is not None:
-                out.append((s, untry(a)))
+                a = untry(a)
+                out.append((s, a))
+                for d in self.derived_atoms(a):
+                    out.append((s, d))
+        return out
+
+    def derived_atoms(self, a, depth=4):
+        """facts implied by a variant test of a combinator chain (appended after the atom itself):
+           x.and_then(f) is Some  =>  x is Some, f((x as Some).0) is Some
+           x.filter(p)   is Some  =>  x is Some
+        (closure bodies are substituted; the derived atoms are normalised and expanded in turn)"""
+        out = []
+        if depth <= 0 or not (a and a[0] == 'is' and a[2] == 'Some' and a[1][0] == 'call' and len(a[1][2]) == 2):
+            return out
+        n = a[1][1]
+        x, clo = a[1][2]
+        nxt = []
+        if n == 'std::option::Option::and_then':
+            nxt.append(untry(('is', x, 'Some')))
+            body = self._beta(clo, [('field', ('as', x, 'Some'), '0', 'std::option::Option')], 80)
+            if body is not None:
+                nxt.append(untry(('is', canon(body), 'Some')))
+        elif n == 'std::option::Option::filter':
+            nxt.append(untry(('is', x, 'Some')))
+        for d in nxt:
+            out.append(d)
+            out.extend(self.derived_atoms(d, depth - 1))
         return out
 
     # ---- paths
@@ -1686,6 +1712,28 @@ def _retarget_term(t, boff):
     return t
 
 
+def _apply_adt_renames(crates, adt_ren):
+    pats = [(re.compile(re.escape(n) + r'(?![A-Za-z0-9_])'), k) for n, k in sorted(adt_ren.items(), key=lambda x: -len(x[0]))]
+    out = []
+    for d in crates:
+        txt = json.dumps(d)
+        for rx, k in pats:
+            txt = rx.sub(lambda m, k=k: k, txt)
+        out.append(json.loads(txt))
+    crates = out
+    cur = {}
+    for d in crates:
+        for a in d['adts']:
+            cur.setdefault(strip_generics(a['path']), a)
+            # a struct's single variant carries the struct's short name
+            for n, k in adt_ren.items():
+                if strip_generics(a['path']) == k:
+                    for v in a.get('variants', []):
+                        if v.get('n') == n.rsplit('::', 1)[-1]:
+                            v['n'] = k.rsplit('::', 1)[-1]
+    return crates, cur
+
+
 def _normalise_names(crates, badts):
     """Private types, fields and enum variants renamed since the pinned tree are mapped back to their pinned names, so that rules
     (which speak about the pinned program) read a renamed program exactly as they read the original.  Detection is structural:
@@ -1707,38 +1755,33 @@ def _normalise_names(crates, badts):
 
     def shape_base(a, own):
         return (a.get('kind'), tuple(tuple(ty.replace(own, 'Self') for _, ty in v[1]) for v in a.get('variants', [])))
-    missing = [k for k in badts if k not in cur]
-    new = [k for k in cur if k not in badts]
-    cand = {}
-    for k in missing:
-        if not badts[k].get('variants') or not any(v[1] for v in badts[k]['variants']):
-            continue   # field-less types have no shape to recognise them by
-        cs = [n for n in new if par(n) == par(k) and shape_cur(cur[n], n) == shape_base(badts[k], k)]
-        if len(cs) == 1:
-            cand[k] = cs[0]
-    used = defaultdict(list)
-    for k, n in cand.items():
-        used[n].append(k)
-    adt_ren = {n: k for k, n in cand.items() if len(used[n]) == 1}
-    if adt_ren:
-        pats = [(re.compile(re.escape(n) + r'(?![A-Za-z0-9_])'), k) for n, k in sorted(adt_ren.items(), key=lambda x: -len(x[0]))]
-        out = []
-        for d in crates:
-            txt = json.dumps(d)
-            for rx, k in pats:
-                txt = rx.sub(k.replace('\\', r'\\'), txt)
-            out.append(json.loads(txt))
-        crates = out
-        cur = {}
-        for d in crates:
-            for a in d['adts']:
-                cur.setdefault(strip_generics(a['path']), a)
-                # a struct's single variant carries the struct's short name
-                for n, k in adt_ren.items():
-                    if strip_generics(a['path']) == k:
-                        for v in a.get('variants', []):
-                            if v.get('n') == n.rsplit('::', 1)[-1]:
-                                v['n'] = k.rsplit('::', 1)[-1]
+    adt_ren = {}
+    for _round in range(3):
+        missing = [k for k in badts if k not in cur]
+        new = [k for k in cur if k not in badts]
+        cand = {}
+
+        def related(a, b):
+            return a == b or a.startswith(b + '::') or b.startswith(a + '::')
+        for k in missing:
+            if not badts[k].get('variants') or not any(v[1] for v in badts[k]['variants']):
+                continue   # field-less types have no shape to recognise them by
+            cs = [n for n in new if par(n) == par(k) and shape_cur(cur[n], n) == shape_base(badts[k], k)]
+            if not cs:
+                # the type moved into a nested / enclosing module (same short name or not), e.g. `body::VTable` -> `body::erased::VTable`
+                cs = [n for n in new if related(par(n), par(k)) and shape_cur(cur[n], n) == shape_base(badts[k], k)]
+                same = [n for n in cs if n.rsplit('::', 1)[-1] == k.rsplit('::', 1)[-1]]
+                cs = same if len(same) == 1 else cs
+            if len(cs) == 1:
+                cand[k] = cs[0]
+        used = defaultdict(list)
+        for k, n in cand.items():
+            used[n].append(k)
+        step = {n: k for k, n in cand.items() if len(used[n]) == 1}
+        if not step:
+            break
+        adt_ren.update(step)
+        crates, cur = _apply_adt_renames(crates, step)
     fren, vren = {}, {}
     for k, b in badts.items():
         a = cur.get(k)
@@ -1865,7 +1908,17 @@ def apply_renames(P, base):
             groups[(parent(k), json.dumps(base[k]))].append(k)
     for (par_k, sig), ks in groups.items():
         cs = [f for f in new if parent(f.key) == par_k and json.dumps(fn_signature(f)) == sig]
+        if not cs:
+            # ... moved together into a nested / enclosing scope (`body::vclone` -> `body::erased::vclone`, `body::vtable` -> `body::VTable::of`)
+            cs = [f for f in new if json.dumps(fn_signature(f)) == sig and parent(f.key) != par_k and
+                  (parent(f.key).startswith(par_k + '::') or par_k.startswith(parent(f.key) + '::'))]
+            cs = [f for f in cs if f.key not in {c.key for c in cand.values()}]
         if len(ks) < 2 or len(cs) != len(ks) or not all(k in fps for k in ks):
+            continue
+        byname = {k: [f for f in cs if f.key.rsplit('::', 1)[-1] == k.rsplit('::', 1)[-1]] for k in ks}
+        if all(len(v) == 1 for v in byname.values()) and len({v[0].key for v in byname.values()}) == len(ks):
+            for k, v in byname.items():
+                cand[k] = v[0]
             continue
         def callees(f):
             out = set()
